@@ -169,6 +169,11 @@ def burstStep (cfg : Cfg) (obs : String) : Option String :=
   | some pk, some gc, some tot, some br => burstLaw cfg.maxGo pk gc tot br
   | _, _, _, _ => some s!"bad-observation {obs}"
 
+def idleSubStep (obs : String) : Option String :=
+  match fieldNat obs "lost", fieldNat obs "dup", fieldInt obs "badit" with
+  | some l, some d, some b => idleSubLaw l d b
+  | _, _, _ => some s!"bad-observation {obs}"
+
 def handoffStep (cfg : Cfg) (fire : Bool) (obs : String) : Option String :=
   match fieldNat obs "early", fieldNat obs "cstart", fieldNat obs "hangs", fieldInt obs "badround" with
   | some e, some cs, some h, some br => handoffLaw e cs h br (classify cfg fire 3 0 0)
@@ -240,6 +245,7 @@ def checker (model : Bool) : Checker where
         else if kind == "conc" then (none, concStep model prop c (shortIdle op) obs)
         else if kind == "aim" then (none, aimStep c obs)
         else if kind == "burst" then (none, burstStep c obs)
+        else if kind == "idlesub" then (none, idleSubStep obs)
         else if kind == "handoff" then (none, handoffStep c (shortIdle op) obs)
         else (none, some s!"bad-kind {kind}")
     | _ =>
